@@ -547,6 +547,14 @@ func (d *Decoder) LoadParityData() error {
 				return nil, err
 			}
 
+			// A volume doesn't have to contain a main
+			// packet (e.g. a partially-written one may
+			// not); its packets are still tied to the
+			// index file's main packet by the set ID.
+			if parityFile.mainPacket == nil {
+				return &parityFile, nil
+			}
+
 			if d.sliceByteCount != parityFile.mainPacket.sliceByteCount {
 				return nil, errors.New("slice byte count mismatch")
 			}
